@@ -161,6 +161,9 @@ def _unpack(data, object_list):
     elif data[0] == 0x06:
         # TODO: Dummy implementation: only parse as integer
         value, remaining = int.from_bytes(data[1:9], byteorder="little"), data[9:]
+    elif data[0] == 0x07:
+        value, remaining = -1, data[1:]
+        add_to_object_list = False
     elif 0x08 <= data[0] <= 0x2F:
         value, remaining = data[0] - 8, data[1:]
         add_to_object_list = False
